@@ -299,6 +299,38 @@ def mutation_search(payload, fails):
                 break
         if len(fails) >= 5:
             break
+    # tuple / dict / set / list 'of' forms with several components, not in any sorted order: EVERY analysis function, one after the other
+    from predicate.standard_predicates import is_dict_of_p, is_tuple_of_p, is_set_of_p, is_list_of_p, is_str_p, is_int_p, is_bool_p
+    comps = [is_dict_of_p(("name", is_str_p), ("age", is_int_p)), is_dict_of_p(("z", is_int_p), ("m", is_str_p), ("a", is_bool_p)),
+             is_dict_of_p((is_str_p, is_int_p), ("age", ge_p(0))), is_tuple_of_p(is_str_p, is_int_p, is_bool_p), is_tuple_of_p(ge_p(3), in_p(3, 1, 2), eq_p(0)),
+             is_tuple_of_p(is_dict_of_p(("b", is_int_p), ("a", is_str_p)), is_list_of_p(in_p(9, 8, 7))), is_set_of_p(in_p(5, 4, 3)) | is_list_of_p(not_in_p(2, 1)),
+             is_dict_of_p(("k", is_tuple_of_p(is_int_p, is_str_p)), ("j", is_dict_of_p(("y", is_int_p), ("x", is_str_p))))]
+    probes2 = PROBES + [{"name": "n", "age": 3}, {"age": 3, "name": "n"}, {"z": 1, "m": "s", "a": True}, ("a", 1, True), (3, 1, 0), {"k": (1, "a"), "j": {"y": 1, "x": "s"}}]
+    for p in comps:
+        calls = analysis_calls(p)
+
+        def deep_snapshot(q):
+            parts = [snapshot(q)]
+            for t in oc.subterms(q):
+                for attr in ("predicates", "key_value_predicates"):
+                    for item in getattr(t, attr, []) or []:
+                        for c in (item if isinstance(item, tuple) else (item,)):
+                            if isinstance(c, PP.Predicate):
+                                parts.append(deep_snapshot(c))
+            return tuple(parts)
+        before = deep_snapshot(p)
+        answers = [call(p, x) for x in probes2]
+        for name in calls:
+            try:
+                calls[name](p)
+            except Exception:  # noqa: BLE001
+                pass
+            n += 1
+            after = deep_snapshot(p)
+            if after != before or [call(p, x) for x in probes2] != answers:
+                fails.append({"kind": "analysis function modified its argument" if after != before else "argument answers differently after the call", "function": name,
+                              "before": str(before[0][1][0][2])[:300], "after": str(after[0][1][0][2])[:300], "p": type(p).__name__})
+                break
     return n
 
 
